@@ -41,6 +41,7 @@ type Interp struct {
 	recvName    string               // name of the receiver variable in the dispatch function
 	nilTested   map[string]bool      // untracked nilable receiver fields nil-tested by the dispatch function or what it calls
 	mirror      bool                 // N-mirror: follow whether the dispatched byte is added to the number's text buffer
+	digitFns    map[*types.Func]bool // methods of the number accumulator that use their byte argument as a decimal digit (b - '0')
 	mirrorFns   map[*types.Func]bool // methods of the number accumulator that add their byte argument to the text buffer when it is in use
 	trackReads  bool                 // record reads-before-write of tracked fields (liveness sampling)
 	noScratch   bool                 // scratch-buffer typestate is not followed (decided by the exploration of the machine alone)
